@@ -159,8 +159,8 @@ Qed.
 Lemma ex2_link : hlink ex2 [10; 9; 11] [6; 5; 8; 11].
 Proof. apply (hlink_intro ex2 8 4 [11] 10 9 6 5); cbn; auto. Qed.
 
-Lemma ex2_conn : Conn.conn ex2 [10; 9; 11] [6; 5; 8; 11].
-Proof. apply rst_step. exact ex2_link. Qed.
+Lemma ex2_conn : Conn.conn ex2 11 [10; 9; 11] [6; 5; 8; 11].
+Proof. apply rst_step. split; [exact ex2_occ_x|]. split; [exact ex2_occ_y|exact ex2_link]. Qed.
 
 Lemma ex2_universe : all_hwires ex2 0 = Some [[10; 9; 11]; [6; 5; 8; 11]].
 Proof. vm_compute. reflexivity. Qed.
@@ -179,7 +179,7 @@ Proof. vm_compute. reflexivity. Qed.
 Example C12_hypotheses_satisfiable :
   exists s t n U x y,
     Inv1a s /\ Inv2a s /\ WFk s /\ WFc s /\ acyclic s /\ par s RChildren t = None /\ is_root s t /\
-    top s n = Some t /\ all_hwires s n = Some U /\ hwire_occ s t x /\ Conn.conn s x y /\ x <> y.
+    top s n = Some t /\ all_hwires s n = Some U /\ hwire_occ s t x /\ Conn.conn s t x y /\ x <> y.
 Proof.
   exists ex2, 11, 0, [[10; 9; 11]; [6; 5; 8; 11]], [10; 9; 11], [6; 5; 8; 11].
   split; [exact ex2_inv1a|]. split; [exact ex2_inv2a|]. split; [exact ex2_wfk|].
@@ -191,9 +191,9 @@ Qed.
 (* the general theorems apply to the instance *)
 Example ex2_class :
   exists l, get_hwires_ALL ex2 (pin_weight ex2 [[10; 9; 11]; [6; 5; 8; 11]]) [10; 9; 11] = Some l /\
-            forall b, In b l <-> Conn.conn ex2 [10; 9; 11] b.
+            forall b, In b l <-> Conn.conn ex2 11 [10; 9; 11] b.
 Proof.
-  exact (get_hwires_ALL_class ex2 11 ex2_inv1a ex2_inv2a ex2_wfk ex2_wfc ex2_top_standalone ex2_root
+  exact (get_hwires_ALL_class ex2 11 ex2_inv1a ex2_inv2a ex2_wfk ex2_wfc ex2_root
            0 _ _ ex2_acyclic eq_refl ex2_universe ex2_occ_x).
 Qed.
 
@@ -203,13 +203,13 @@ Example ex2_symmetric :
     get_hwires_ALL ex2 (pin_weight ex2 [[10; 9; 11]; [6; 5; 8; 11]]) [6; 5; 8; 11] = Some ly /\
     forall b, In b lx <-> In b ly.
 Proof.
-  exact (get_hwires_ALL_symmetric ex2 11 ex2_inv1a ex2_inv2a ex2_wfk ex2_wfc ex2_top_standalone ex2_root
+  exact (get_hwires_ALL_symmetric ex2 11 ex2_inv1a ex2_inv2a ex2_wfk ex2_wfc ex2_root
            0 _ _ _ ex2_acyclic eq_refl ex2_universe ex2_occ_x ex2_conn).
 Qed.
 
 (* consequence: on ex2 the class of the outer occurrence is exactly the two occurrences *)
 Example ex2_conn_class : forall b,
-  Conn.conn ex2 [10; 9; 11] b <-> b = [10; 9; 11] \/ b = [6; 5; 8; 11].
+  Conn.conn ex2 11 [10; 9; 11] b <-> b = [10; 9; 11] \/ b = [6; 5; 8; 11].
 Proof.
   intro b. destruct ex2_class as (l & E & S). rewrite ex2_answer in E. inversion E; subst l.
   rewrite <- S. cbn. split; [intros [H|[H|[]]]; auto|intros [H|H]; auto].
